@@ -37,13 +37,13 @@ claim("C03", "property-based testing: generated reaction lists, stoichiometry by
       _TB, "DESIGN.md section 4 C03")
 
 claim("C07", "property-based testing: exhaustive enumeration of the option lattice x generated models, result-shape oracle",
-      "All 360 option combinations (432 in the thorough tier with a dividing volume object) are enumerated for every "
+      "All 432 option combinations (incl. a dividing volume object) are enumerated for every "
       "generated model and grid (24 models quick / 300 thorough); outcomes are classified as explicit option error vs "
       "failure from inside, and returned results are checked for row count, exact time axis, column order, volume column "
       "and first row = initial condition with assignment rules applied.", _TB, "DESIGN.md section 4 C07")
 
 claim("C05", "property-based testing: generated finite-state networks, statistical differential vs chemical master equation (Hypothesis)",
-      "700 (quick) / 8000 (thorough) generated networks x 10k / 40k seeded consecutive SSA paths are compared with the "
+      "1000 (quick) / 8000 (thorough) generated networks (1..7 reactions; grids from 0 or later, contiguous or strided arrays) x 10k / 40k seeded consecutive SSA paths are compared with the "
       "master equation solved by matrix exponential on the enumerated state space: pooled chi-square on all marginals "
       "and consecutive two-time joints with a two-stage confirmation (false-alarm probability < 1e-13 per case); "
       "plain interface, safe interface (with the guarded reference propensities) and py_simulate_model.  A 5% bias in a "
